@@ -29,6 +29,9 @@ Proof. intros H. exists s. split; [constructor|]. simpl. auto. Qed.
 Lemma own_mkp E s c f v p : owned_by E s (mkp s c f v p []).
 Proof. exists s. split; [constructor|]. simpl. repeat split; auto. intros H; exfalso; apply H; reflexivity. Qed.
 
+Lemma own_mkm E s c f v p m : owned_by E s (mkm s c f v p m).
+Proof. exists s. split; [constructor|]. simpl. repeat split; auto. intros H; exfalso; apply H; reflexivity. Qed.
+
 Ltac own_nil := apply own_mk; intros Hd; exfalso; apply Hd; reflexivity.
 
 Section WithTrig.
@@ -107,6 +110,18 @@ Proof.
     apply in_flat_map in Hx as (fv & _ & Hx). apply in_flat_map in Hx as (v & _ & Hx).
     apply in_flat_map in Hx as (t & _ & Hx).
     destruct (_ || _ || _); [destruct Hx|destruct Hx as [<-|[]]; apply own_mkp].
+  - intros [= <-] Hx. simpl in Hx. apply in_flat_map in Hx as (sc & _ & Hx).
+    destruct (sc_deact sc); [destruct Hx|]. apply in_flat_map in Hx as (fv & _ & Hx).
+    apply in_map_iff in Hx as (so & <- & _). destruct (sol_failure so); apply own_mkm.
+  - destruct (cc_val cc) as [answers|rows].
+    + intros [= <-] Hx. simpl in Hx. apply in_flat_map in Hx as (fv & _ & Hx). apply in_flat_map in Hx as (v & _ & Hx).
+      destruct (ask_of answers (fst fv) v) as [[[] msgs]|]; [destruct Hx| |destruct Hx]. destruct Hx as [<-|[]]. apply own_mkm.
+    + intros H Hx. apply bind_ok in H as (rs & Hm & Eq). injection Eq as <-. simpl in Hx.
+      destruct (concatM_map_in _ _ _ Hm x Hx) as (fv & l1 & _ & E1 & H1).
+      destruct (concatM_map_in _ _ _ E1 x H1) as (v & l2 & _ & E2 & H2).
+      destruct (concatM_map_in _ _ _ E2 x H2) as (so & l3 & _ & E3 & H3).
+      destruct (sol_bound so); [injection E3 as <-; destruct H3 as [<-|[]]; apply own_mkm|].
+      destruct (sol_failure so); [discriminate|injection E3 as <-; destruct H3].
 Qed.
 
 Lemma loop_owned o top E s ev : (forall c cr, In c (scomps s) -> ev c = Ok cr -> Forall (owned_by E s) (snd cr)) ->
